@@ -53,7 +53,7 @@ def _parse_lines(text):
             for m in re.finditer(r"%([a-zA-Z_]\w*)(?:=(\S*))?", body[i:]):
                 params[m.group(1)] = m.group(2) if m.group(2) not in (None, "") else "1"
             body = body[:i].strip()
-        items.append((ind, re.sub(r"\s+", " ", body), params))
+        items.append((ind, re.sub(r"\s+", " ", body), params, ln.strip()))
     return items
 
 
@@ -73,7 +73,8 @@ def parse_acl(texts, prefix):
             continue
         base = items[0][0]
         stack = [(-1, root)]  # (indent, children list)
-        for (ind, row, params) in items:
+        seen_raw = set()        # the same raw line written twice in ONE text is one rule line (the text is parsed as a tree)
+        for (ind, row, params, raw) in items:
             ind -= base
             while stack and stack[-1][0] >= ind:
                 stack.pop()
@@ -82,6 +83,11 @@ def parse_acl(texts, prefix):
             if r is None:
                 r = ARule(row, prefix)
                 level.append(r)
+            again = (id(level), raw) in seen_raw
+            seen_raw.add((id(level), raw))
+            if again:
+                stack.append((ind, r.children))
+                continue
             if _true(params.get("global")):
                 r.is_global = True
             if "prio" in params:
